@@ -170,6 +170,14 @@ def run(tier):
         if pump_dead:
             sublevels = []
         S.append([inp, nodes, kids, sublevels])
+        if pfile and flavour == "sync" and not pump_dead:
+            # the MQTT client lost its session (clean-session reconnect): the application starts the gateway again
+            del subs[:]
+            try:
+                gw.tasks.transport.connect()
+            except Exception:  # pylint: disable=broad-except
+                pass
+            S.append([inp, nodes, kids, [t.split("/") for t, _ in subs]])
         if pfile and os.path.exists(pfile):
             os.remove(pfile)
     path = os.path.join(wd, "mqtt.json")
